@@ -365,7 +365,7 @@ def run(P, rep, tier):
         fallible = sorted({ev.get('l', 0) for ev, lf, kind, lvl, mac, t in alloc_sites(f)} |
                           {ev.get('l', 0) for ev, n in f.calls() if n and any(g in cf for g in P.resolve(n, f))})
         for aev, M, mac in sites:
-            if mac in NONZERO:
+            if mac in NONZERO or mac in ('EB_CALLOC', 'EB_CALLOC_ARRAY', 'EB_CALLOC_ALIGNED_ARRAY', 'EB_NO_THROW_CALLOC', 'EB_NO_THROW_CALLOC_ARRAY', 'raw:calloc'):
                 # sub-members the destructor touches through M
                 subs = {}
                 for ev in d.events():
@@ -376,6 +376,11 @@ def run(P, rep, tier):
                         if x[0] == 'm' and x[1] != M and any(y[0] == 'm' and y[1] == M for y in subexprs(x[3])):
                             subs.setdefault(x[1], ev)
                 if not subs:
+                    continue
+                if mac not in NONZERO:
+                    ncont += 1
+                    rep.ob('C16.CONTAINER', '%s/%s' % (f.name, M.split('.', 1)[1]), True, f.loc(aev),
+                           '%s is allocated zero-filled (%s): the %d sub-member(s) %s releases through it are NULL until written' % (M.split('.', 1)[1], mac, len(subs), dname))
                     continue
                 la = aev.get('l', 0)
                 zeroed = [ev for ev, n in f.calls(('memset', 'EB_MEMSET', '__builtin_memset')) if any(y[0] == 'm' and y[1] == M for y in subexprs(ev['e'][2][0])) and ev.get('l', 0) >= la]
@@ -418,7 +423,7 @@ def run(P, rep, tier):
                            ('rows of %s are dereferenced only after row 0 was tested' % M.split('.', 1)[1]) if ok else
                            ('%s is a two-level allocation (%s): when its second allocation fails the rows are NULL / unset, and %s dereferences %s-> without testing row 0' % (M.split('.', 1)[1], mac, dname, pstr(hit))))
                     break
-    rep.floor('C16.CONTAINER', 5)
+    rep.floor('C16.CONTAINER', 3)
     rep.floor('C16.ELEM2D', 1)
 
     # ---------------- UNDEF: the unwinding must not release a cell that was never written.
